@@ -509,6 +509,15 @@ func (i *interpreter) byteEq(a, b value) value {
 	if oka && okb {
 		return ca == cb
 	}
+	// float elements occur in uniqueness keys: identity of the float (SMT "=": -0 != +0)
+	fa, okfa := a.(float64)
+	fb, okfb := b.(float64)
+	if okfa && okfb {
+		return math.Float64bits(fa) == math.Float64bits(fb)
+	}
+	if kindOf(a) != kindOf(b) {
+		return false
+	}
 	if _, ok := a.(opaque); ok {
 		panic(unsupported{"comparison of a formatted symbolic number"})
 	}
@@ -521,6 +530,10 @@ func (i *interpreter) byteEq(a, b value) value {
 func (i *interpreter) strEq(x, y value) value {
 	a, b := toSymStr(x), toSymStr(y)
 	if a.hasOpaque() || b.hasOpaque() {
+		// an opaque piece is at least one byte long
+		if !a.hasOpaque() && len(a.b) < len(b.b) || !b.hasOpaque() && len(b.b) < len(a.b) {
+			return false
+		}
 		panic(unsupported{"comparison of a string containing a formatted symbolic number"})
 	}
 	if len(a.b) != len(b.b) {
